@@ -75,6 +75,9 @@ CHECKS["C20"] = dict(
     technique="Lean 4 theorems in the standard rounding model over regenerated kernels + bitwise translation validation",
 )
 
+BRIDGE = (" Since round 2, explain_one of IncrementalPFI / IncrementalSage is additionally TRANSLATED statement by statement from the source on "
+          "every run (tools/py2lean_eff.py) and Props/GenBridge.lean proves the generated definitions equal to the hand-written effectful model (a soft "
+          "tie: a rejected or unprovable translation raises the search budget and is recorded in the evidence, it is not reported by itself).")
 TRUST_H = ("Trusted: Lean kernel; axioms propext/Classical.choice/Quot.sound; the hand-written model (Model/*.lean) is tied to the code only by "
            "the correspondence run (same recorded callbacks, exact rationals) — code paths the generators do not reach are not covered; "
            "tracker kernels inside the model are regenerated from source; driver JSON glue; harness.q.Q.")
@@ -84,7 +87,9 @@ CHECKS["C01"] = dict(
           "subset, proved for the library imputers in C06), every d>=1, n, every sequence of feature orders (permutations of the names), "
           "static mode and dynamic mode with ANY alpha, the importance values of the IncrementalSage model sum to marginal loss minus "
           "model loss = explained loss (both loss directions). The model is tied to incremental.py/base.py/multi_value.py by exact-"
-          "arithmetic correspondence over the explainer configuration space; the identity is also evaluated on the real object."),
+          "arithmetic correspondence over the explainer configuration space; the identity is also evaluated on the real object, also after "
+          "caught callback failures (E2E.sage_efficiency_with_failures, E2Eb.*_stream_is_pure_stream_of_successes) and with the library's own "
+          "wrappers around a model that learns between the calls." + BRIDGE),
     design_ref="DESIGN.md section 6, C01", note=TRUST_H + " 'to within rounding' for floats is not a theorem (see C20).",
     technique="Lean 4 theorem (invariant by induction, joint linearity of trackers) over hand model + differential correspondence",
 )
@@ -93,7 +98,8 @@ CHECKS["C02"] = dict(
     text=("Lean theorems pfi_refines_spec / pfi_static_mean / pfi_dynamic / variance forms / pfi_first_only_seeds / "
           "pfi_ignored_feature_zero: for every stream and callbacks the importance and variance trackers of every feature are the base "
           "statistic (mean, or smoothing with alpha from zero) of mean-imputed-loss minus original loss, resp. of the squared deviation "
-          "from the updated estimate. Tied to pfi.py by exact-arithmetic correspondence; real outputs compared with the Lean spec."),
+          "from the updated estimate (E2Eb: also for the successful calls of a stream with caught failures). Tied to pfi.py by exact-arithmetic "
+          "correspondence; real outputs compared with the Lean spec." + BRIDGE),
     design_ref="DESIGN.md section 6, C02", note=TRUST_H,
     technique="Lean 4 refinement theorems over hand model + differential correspondence",
 )
@@ -103,7 +109,7 @@ CHECKS["C03"] = dict(
           "the credited contribution is loss before minus loss after revealing the feature, the imputer receives exactly the features "
           "not yet revealed, the chain starts at the loss of the normalised running mean prediction, and all five trackers are the "
           "configured running statistics of these quantities (scalar and growing multi-label outputs). Tied to incremental.py by "
-          "exact-arithmetic correspondence; real outputs (incl. subsets handed to the imputer) compared with the Lean spec."),
+          "exact-arithmetic correspondence; real outputs (incl. subsets handed to the imputer) compared with the Lean spec." + BRIDGE),
     design_ref="DESIGN.md section 6, C03", note=TRUST_H,
     technique="Lean 4 refinement theorems over hand model + differential correspondence",
 )
@@ -162,7 +168,7 @@ CHECKS["C15"] = dict(
           "logs exactly 1 + d*n model evaluations (none on the first call), exactly one storage update which is the last callback (none "
           "with update_storage=False), returns the importance values, and agrees with the pure layer. The Python-level clauses "
           "(construction from required arguments, positional loss signature, str/int/float/mixed names as keys, non-modification of x, y, "
-          "names) are decided by sweeps on the real classes."),
+          "names) are decided by sweeps on the real classes." + BRIDGE),
     design_ref="DESIGN.md section 6, C15", note=TRUST_H,
     technique="Lean 4 theorems over effectful model + constructor/name-type sweeps + call-log correspondence",
 )
@@ -181,7 +187,7 @@ CHECKS["C17"] = dict(
           "imputer): a failing explain_one leaves estimates and seen unchanged; the error is a callback's error; any invariant of the "
           "estimates (e.g. the C01 identity) survives caught failures over a whole stream. Tied to pfi.py / incremental.py by enumerating "
           "every fault position (and random pairs) of small configurations on the real classes and comparing post-state, error and call "
-          "log with the model; the identity is re-checked after resuming."),
+          "log with the model; the identity is re-checked after resuming." + BRIDGE),
     design_ref="DESIGN.md section 6, C17", note=TRUST_H + " BatchSage/IntervalSage keep their values in a local until the end (checked by reading; not modelled with faults).",
     technique="Lean 4 theorems over state-keeping error monad + exhaustive fault enumeration on the real classes",
 )
@@ -221,10 +227,11 @@ CHECKS["C18"] = dict(
 )
 CHECKS["C19"] = dict(
     category="proof",
-    text=("Partial. 16 Lean theorems about TreeStorage/TreeImputer bookkeeping over an abstract tree oracle, the leaf reservoirs being the regenerated "
+    text=("Partial. 17 Lean theorems about TreeStorage/TreeImputer bookkeeping over an abstract tree oracle, the leaf reservoirs being the regenerated "
           "GeometricReservoirStorage kernel with p = 1: length = number of updates; every reservoir holds <= L complete previously observed points; the "
-          "newest observation is in the routed leaf's reservoir; no leaf id has two reservoirs; after an update all keys are current leaves under "
-          "the named hypothesis CleanupFires (a counterexample shows it is needed); the imputer changes only requested features and takes each value "
+          "newest observation is in the routed leaf's reservoir; no leaf id has two reservoirs; after EVERY update all keys are current leaves (no "
+          "hypothesis on the tree any more since the repair a088161; the shipped clean-up-only-on-growth order is kept as `updateFeatureShipped` with its "
+          "counterexample); the imputer changes only requested features and takes each value "
           "from a point in the routed leaf's reservoir or the fall-back. River's trees are an oracle recorded from the real objects; hypotheses and "
           "clauses are monitored after every update/imputation."),
     design_ref="DESIGN.md section 6, C19", note=TRUST_H + " river's Hoeffding trees (learn_one, routing, leaf enumeration) are an oracle: monitored, not proved.",
@@ -259,7 +266,7 @@ def main():
                        "reason": NOT_YET.get(pid, "check not built yet in this round (model and theorems in progress; see DESIGN.md section 12)")})
     man = {
         "version": 1,
-        "setup_cmd": "/venv/bin/python tools/py2lean.py && /venv/bin/python tools/gen_audits.py && cd lean && lake build IxaiVerif IxaiVerif.AuditAll",
+        "setup_cmd": "sh tools/setup.sh",
         "hooks": {
             "guard": "IXAI_VERIF",
             "enable": "no hooks are needed: checks import /repo's working tree directly (PYTHONPATH) and control random/np.random from outside",
@@ -269,7 +276,7 @@ def main():
         },
         "engines": [{
             "name": "lean4-model",
-            "path": "lean/ (Lean 4 model + theorems), tools/py2lean.py (translator), harness/ (correspondence), bin/check",
+            "path": "lean/ (Lean 4 model + theorems), tools/py2lean.py + tools/py2lean_eff.py (translators), harness/ (correspondence), bin/check",
             "serves_properties": sorted(CHECKS),
             "kind_free_text": "machine-checked proof in Lean 4 over a model tied to the source by translation and by differential correspondence",
         }],
